@@ -41,8 +41,11 @@ def _worlds() -> Iterable[Dict[str, Any]]:
     times = [{"B.placed_at": w["a"], "S.placed_at": w["b"]} for w in weak_orders(["a", "b"])]
     ids = [{"B.order_id": w["a"], "S.order_id": w["b"]} for w in weak_orders(["a", "b"])]
     p0 = [{"P0": None}, {"P0": "p0"}]
-    prices: List[Dict[str, Any]] = [{"B.price": None, "S.price": None}, {"B.price": 10, "S.price": None}, {"B.price": None, "S.price": 10}]
+    # 0 is a legal limit price: code that tests a price for truth instead of `is None` shows in these worlds
+    prices: List[Dict[str, Any]] = [{"B.price": None, "S.price": None}, {"B.price": 10, "S.price": None}, {"B.price": None, "S.price": 10},
+                                    {"B.price": 0, "S.price": None}, {"B.price": None, "S.price": 0}]
     prices += [{"B.price": 10 + w["a"], "S.price": 10 + w["b"]} for w in weak_orders(["a", "b"])]
+    prices += [{"B.price": w["a"], "S.price": w["b"]} for w in weak_orders(["a", "b"])]
     return product_worlds(prices, times, ids, p0)
 
 
